@@ -71,6 +71,21 @@ def _enum_aligned(c: ast.Call) -> tuple[bool | None, str]:
     return None, unparse(c)
 
 
+def _zip_binding(ld: LocalDefs, name: str) -> tuple[ast.Call, int] | None:
+    """name bound as the p-th component of the elements of a zip(...) call (for / comprehension)"""
+    ds = ld.defs.get(name, [])
+    if len(ds) != 1:
+        return None
+    d = ds[0]
+    if isinstance(d, ast.Subscript) and isinstance(d.slice, ast.Constant) and isinstance(d.slice.value, int):
+        inner = d.value
+        if isinstance(inner, ast.Subscript) and isinstance(inner.slice, ast.Name) and inner.slice.id == "*":
+            z = inner.value
+            if isinstance(z, ast.Call) and isinstance(z.func, ast.Name) and z.func.id == "zip" and d.slice.value < len(z.args):
+                return z, d.slice.value
+    return None
+
+
 def r13a(ctx: Ctx, funcs: list[str], tables: dict[str, set[str]] | None = None, require: int = 1) -> list[Ob]:
     out: list[Ob] = []
     n_sites = 0
@@ -102,6 +117,23 @@ def r13a(ctx: Ctx, funcs: list[str], tables: dict[str, set[str]] | None = None, 
                     b = _enum_binding(ld, e.id, bv0[0] if bv0 else None)
                     if b is not None and b[1] == 1:
                         reads.append((unparse(b[0].args[0]), None, e))
+            # element and variable bound by one zip:  for v, f in zip(A, T): f(Scope([v]))  pairs T[i] with A[i]
+            if isinstance(call.func, ast.Name) and isinstance(v, ast.Name):
+                zf, zv = _zip_binding(ld, call.func.id), _zip_binding(ld, v.id)
+                if zf is not None and zv is not None and zf[0] is zv[0]:
+                    zc = zf[0]
+                    table_e, var_e = zc.args[zf[1]], zc.args[zv[1]]
+                    if isinstance(table_e, ast.Name) and table_e.id in local_tables and not (tables is not None and fq in tables and table_e.id not in tables[fq]):
+                        k += 1
+                        n_sites += 1
+                        inst = f"{table_e.id}@Scope([{vtxt}])#{k}"
+                        l = f"{f.module.relpath}:{call.lineno}"
+                        vt = unparse(var_e).replace(" ", "")
+                        if vt in (f"range(len({table_e.id}))",) or (isinstance(var_e, ast.Call) and isinstance(var_e.func, ast.Name) and var_e.func.id == "range" and len(var_e.args) == 1):
+                            out.append(ok("R13a", fq, inst, f"table element paired with its own index by zip({vt}, {table_e.id})", l))
+                        else:
+                            out.append(viol("R13a", fq, inst, f"zip({vt}, {table_e.id}) pairs the i-th entry of the per-variable table '{table_e.id}' with the variable {vt}[i]: the table is read by position, not by variable id, so with a non-identity ordering a variable gets the factory / arguments given for another variable", l))
+                        continue
             for table, idx, node in reads:
                 if tables is not None and fq in tables and table.split("[")[0] not in tables[fq]:
                     continue
@@ -143,6 +175,171 @@ def r13a(ctx: Ctx, funcs: list[str], tables: dict[str, set[str]] | None = None, 
                             l,
                         )
                     )
-    if n_sites < require:
-        raise AnalysisError(f"floor missed: R13a resolved {n_sites} per-variable table reads in {funcs}, expected at least {require}")
+    if n_sites < require and not any(o.status == "violation" for o in out):
+        # not raised here: the property-level floor turns this into an analysis error *after* the
+        # other rules of the property have had their say (a violation found elsewhere takes precedence)
+        out.append(unres("R13a", funcs[0], "floor", f"only {n_sites} per-variable table read(s) resolved, expected at least {require}", ctx.repo.func(funcs[0]).loc))
+    return out
+
+
+# ------------------------------------------------------------------------------- R13c: index spaces
+def r13c(ctx: Ctx, fq: str, var_tables: set[str], ordering: str = "ordering") -> list[Ob]:
+    """R13c -- index-space typing of a template that takes a variable ``ordering``.
+
+    Two index spaces: VAR (a variable id) and POS (a position in the ordering).  ``ordering`` is a
+    POS-indexed table of VAR values; the per-variable arguments (``var_tables`` and everything mapped
+    from them in order: comprehensions, ``enumerate``) are VAR-indexed; a list built by iterating
+    ``ordering`` is POS-indexed; ``range`` counters are POS, ``ordering[..]`` and loop variables over
+    ``ordering`` are VAR, the counter of ``enumerate(T)`` lives in T's space.  Decided: every
+    subscript read of a typed table uses an index of the table's own space, and ``zip`` never pairs a
+    VAR table with a POS table positionally (a constant index is compatible with both)."""
+    f = ctx.repo.func(fq)
+    ld = LocalDefs(f.node)
+    out: list[Ob] = []
+
+    def table_space(e: ast.AST, depth: int = 0) -> str | None:
+        """'VAR' | 'POS' | 'ANY' | 'MIXED' | None"""
+        if depth > 8:
+            return None
+        if isinstance(e, ast.Name):
+            if e.id == ordering:
+                return "POS"
+            if e.id in var_tables:
+                return "VAR"
+            ds = ld.defs.get(e.id, [])
+            sp = {table_space(d, depth + 1) for d in ds}
+            sp.discard("ANY")
+            if not ds:
+                return None
+            if not sp:
+                return "ANY"
+            return sp.pop() if len(sp) == 1 else None
+        if isinstance(e, ast.BinOp) and isinstance(e.op, ast.Mult) and isinstance(e.left, (ast.List, ast.Tuple)):
+            return "ANY"  # [x] * n : the same entry for every index
+        if isinstance(e, (ast.ListComp, ast.GeneratorExp)) and len(e.generators) == 1:
+            return iter_space(e.generators[0].iter, depth + 1)
+        if isinstance(e, ast.Call) and isinstance(e.func, ast.Name) and e.func.id in ("list", "tuple") and e.args:
+            return table_space(e.args[0], depth + 1)
+        return None
+
+    def iter_space(it: ast.AST, depth: int = 0) -> str | None:
+        if isinstance(it, ast.Call) and isinstance(it.func, ast.Name):
+            if it.func.id == "enumerate" and it.args:
+                return table_space(it.args[0], depth + 1)
+            if it.func.id in ("range", "reversed") and it.args:
+                return "POS" if it.func.id == "range" else iter_space(it.args[0], depth + 1)
+            if it.func.id == "zip":
+                sp = {table_space(a, depth + 1) for a in it.args}
+                sp.discard("ANY")
+                sp.discard(None)
+                if len(sp) > 1:
+                    return "MIXED"
+                return sp.pop() if sp else None
+        return table_space(it, depth + 1)
+
+    parents: dict[int, ast.AST] = {}
+    for p_ in ast.walk(f.node):
+        for c_ in ast.iter_child_nodes(p_):
+            parents[id(c_)] = p_
+
+    def _component(target: ast.AST, name: str, it: ast.AST) -> ast.AST | None:
+        """the LocalDefs-style definition of `name` when `target` iterates `it`"""
+        el = LocalDefs.elem_of(it)
+        if isinstance(target, ast.Name) and target.id == name:
+            return el
+        if isinstance(target, (ast.Tuple, ast.List)):
+            for k, t in enumerate(target.elts):
+                if isinstance(t, ast.Name) and t.id == name:
+                    sub = ast.Subscript(value=el, slice=ast.Constant(k), ctx=ast.Load())
+                    return sub
+        return None
+
+    def scoped_def(nm: ast.Name) -> ast.AST | None:
+        """the binding of a name that is visible at this occurrence: the nearest enclosing
+        comprehension clause or for-loop that binds it, else its unique function-level definition"""
+        cur: ast.AST | None = nm
+        while cur is not None:
+            par = parents.get(id(cur))
+            if isinstance(par, (ast.ListComp, ast.GeneratorExp, ast.SetComp, ast.DictComp)):
+                for g in par.generators:
+                    d = _component(g.target, nm.id, g.iter)
+                    if d is not None:
+                        return d
+            if isinstance(par, ast.For) and cur in par.body:
+                d = _component(par.target, nm.id, par.iter)
+                if d is not None:
+                    return d
+            cur = par
+        ds = ld.defs.get(nm.id, [])
+        return ds[0] if len(ds) == 1 else None
+
+    def index_space(e: ast.AST, depth: int = 0) -> str | None:
+        if depth > 8:
+            return None
+        if isinstance(e, ast.Constant) or (isinstance(e, ast.UnaryOp) and isinstance(e.operand, ast.Constant)):
+            return "ANY"
+        if isinstance(e, ast.Subscript) and isinstance(e.value, ast.Name) and e.value.id == ordering:
+            return "VAR"
+        if isinstance(e, ast.BinOp) and isinstance(e.op, (ast.Add, ast.Sub)):
+            a, b = index_space(e.left, depth + 1), index_space(e.right, depth + 1)
+            return a if b == "ANY" else (b if a == "ANY" else (a if a == b else None))
+        if isinstance(e, ast.Name):
+            d = scoped_def(e)
+            if d is None:
+                return None
+            # x in <iter>
+            if isinstance(d, ast.Subscript) and isinstance(d.slice, ast.Name) and d.slice.id == "*":
+                it = d.value
+                if isinstance(it, ast.Name) and it.id == ordering:
+                    return "VAR"
+                if isinstance(it, ast.Call) and isinstance(it.func, ast.Name) and it.func.id == "range":
+                    return "POS"
+                if isinstance(it, ast.Call) and isinstance(it.func, ast.Name) and it.func.id == "reversed" and it.args:
+                    inner = it.args[0]
+                    if isinstance(inner, ast.Call) and isinstance(inner.func, ast.Name) and inner.func.id == "range":
+                        return "POS"
+                    if isinstance(inner, ast.Name) and inner.id == ordering:
+                        return "VAR"
+                return None
+            # (i, x) in enumerate(T) / components of zip
+            if isinstance(d, ast.Subscript) and isinstance(d.slice, ast.Constant) and isinstance(d.value, ast.Subscript) and isinstance(d.value.slice, ast.Name) and d.value.slice.id == "*":
+                it = d.value.value
+                k = d.slice.value
+                if isinstance(it, ast.Call) and isinstance(it.func, ast.Name) and it.func.id == "enumerate" and it.args and k == 0:
+                    return table_space(it.args[0])
+                if isinstance(it, ast.Call) and isinstance(it.func, ast.Name) and it.func.id == "zip" and isinstance(k, int) and k < len(it.args):
+                    a = it.args[k]
+                    if isinstance(a, ast.Name) and a.id == ordering:
+                        return "VAR"
+                    if isinstance(a, ast.Call) and isinstance(a.func, ast.Name) and a.func.id == "range":
+                        return "POS"
+                return None
+        return None
+
+    n = 0
+    for node in ast.walk(f.node):
+        site = f"{f.module.relpath}:{getattr(node, 'lineno', 0)}"
+        if isinstance(node, ast.Call) and isinstance(node.func, ast.Name) and node.func.id == "zip":
+            if iter_space(node) == "MIXED":
+                n += 1
+                out.append(viol("R13c", fq, f"zip#{n}:{unparse(node)[:50]}", f"`{unparse(node)[:80]}` pairs a table indexed by variable id with `{ordering}` (indexed by position) entry by entry: for a non-identity ordering a variable is paired with another variable's entry", site))
+            continue
+        if not (isinstance(node, ast.Subscript) and isinstance(node.ctx, ast.Load) and isinstance(node.value, ast.Name)):
+            continue
+        if node.value.id == ordering or isinstance(node.slice, ast.Slice):
+            continue
+        ts = table_space(node.value)
+        if ts not in ("VAR", "POS"):
+            continue
+        ix = index_space(node.slice)
+        n += 1
+        inst = f"read#{n}:{unparse(node)[:40]}"
+        if ix is None:
+            out.append(unres("R13c", fq, inst, f"index space of `{unparse(node.slice)}` not derived (table is {ts}-indexed)", site))
+        elif ix == "ANY" or ix == ts:
+            out.append(ok("R13c", fq, inst, f"{ts}-indexed table read with a {ix} index", site))
+        else:
+            what = "a position in the ordering" if ix == "POS" else "a variable id"
+            need = "a variable id" if ts == "VAR" else "a position in the ordering"
+            out.append(viol("R13c", fq, inst, f"`{unparse(node)}`: the table `{node.value.id}` is indexed by {need} but is read with {what}: with a non-identity ordering a variable gets the layer / arguments of another variable", site))
     return out
